@@ -701,6 +701,7 @@ NewCall(who, api) ==
     [who |-> who, api |-> api, st |-> "issued", det |-> FALSE, res |-> NoRes,
      id |-> 0, body |-> NoBody, big |-> FALSE, et |-> "", name |-> "", events |-> {}, idc |-> "ok",
      agen |-> 0, which |-> "", feat |-> FALSE,
+     slow |-> FALSE,     \* the request's body is still on its way (the handler is reading it): no effect yet
      tdone |-> 0]        \* trace validation: time stamp of the last recorded event when the answer was computed
 
 Answer(s, c, r) == [s EXCEPT !.calls[c].st = "done", !.calls[c].res = r]
@@ -914,8 +915,14 @@ RouteEffect(s, c) ==
               [] r = "telemetry" -> Answer(s, c, Res(202, "Telemetry.NotSupported"))
               [] OTHER -> Answer(s, c, Res(0, ""))      \* the typed calls have their own effects; not issued as "route"
 
+\* a request whose body arrives slowly: the handler has the headers (the request id passed the middleware) and is
+\* reading the body; the effect is computed when the body is complete (BodyDone) - for /error the state change that
+\* the handler makes before reading concerns the runtime object of the sender's generation only
+BodyDoneEn(s, c) == c \in DOMAIN s.calls /\ s.calls[c].st = "issued" /\ s.calls[c].slow
+BodyDoneDo(s, c) == [s EXCEPT !.calls[c].slow = FALSE]
+
 EffectEn(s, c) ==
-    /\ c \in DOMAIN s.calls /\ s.calls[c].st = "issued"
+    /\ c \in DOMAIN s.calls /\ s.calls[c].st = "issued" /\ ~s.calls[c].slow
     /\ (s.calls[c].api = "response" => Free(s, "server.sendResponse"))
     /\ (s.calls[c].api = "error" => Free(s, "server.sendErrorResponse"))
     /\ ((s.calls[c].api = "register" /\ ~(s.calls[c].name \in Agents(s) /\ s.ag[s.calls[c].name].kind = "ext"))
